@@ -435,6 +435,14 @@ func (d *Datastore) TransactionSet(ctx context.Context, transactionId string, tr
 		return nil, err
 	}
 
+	// A transaction that was not applied (dry run, failed validation) is not waiting for a
+	// confirmation and no rollback timer will ever end it. It must not stay registered, otherwise
+	// the datastore refuses every further transaction. The deferred guard unregisters it.
+	if !transaction.IsRollbackTimerRunning() {
+		log.Infof("Transaction: %s - not applied, closing", transactionId)
+		return response, nil
+	}
+
 	// Mark the transaction as successfully committed
 	transactionGuard.Success()
 
